@@ -345,11 +345,25 @@ def judge_hv_special(cx: Ctx, case: dict[str, Any], model: dict[str, Any] | None
             truth = brute_hv(ipts, iref)
             if obs != truth:
                 return bad("wrong-volume", "compute_hypervolume(%s, ref=%s) = %s, dominated volume %s" % (case["pts"], case["ref"], obs, truth), dict(w, want=truth), dim=len(ref), assume_pareto=ap)
-        elif obs == "inf":
-            return bad("degenerate-infinite-box", "every row with an infinite extent touches the reference point in another coordinate, so the dominated "
-                       "volume is finite, but compute_hypervolume(%s, ref=%s) returned inf" % (case["pts"], case["ref"]), w)
         elif isinstance(got, Exc):
             return bad("exception", "compute_hypervolume(%s, ref=%s) raised %s" % (case["pts"], case["ref"], got), w)
+        elif not all(abs(x) != INF for x in ref):
+            # a non-finite reference point: the code answers inf whatever the rows are (pinned by the suite's
+            # test_wfg_with_inf, where the only row TOUCHES the infinite reference coordinate); the dominated volume of
+            # rows none of which is strictly below the reference point is 0.  Both answers are accepted.
+            cx.chk.count("hv-special:non-finite reference, no row strictly below (inf by convention or 0)")
+            if obs not in ("inf", 0):
+                return bad("degenerate-box-wrong-volume", "no row is strictly below the non-finite reference point %s but compute_hypervolume(%s) returned %s (neither inf nor 0)" % (
+                    case["ref"], case["pts"], obs), w, dim=len(ref), assume_pareto=ap)
+        else:
+            # finite reference point; every row with a -inf coordinate touches the reference point in another coordinate,
+            # i.e. dominates a box of zero volume: the dominated volume is that of the rows strictly below the reference
+            proper = [[int(x) for x in p] for p in pts if all(a < b for a, b in zip(p, ref))]
+            truth = brute_hv(proper, [int(x) for x in ref]) if proper else 0
+            if obs != truth:
+                return bad("degenerate-box-wrong-volume", "every row with an infinite extent touches the reference point in another coordinate (a box of zero "
+                           "volume), so the dominated volume of %s below %s is %s, but compute_hypervolume returned %s" % (case["pts"], case["ref"], truth, obs),
+                           dict(w, want=truth), dim=len(ref), assume_pareto=ap)
     if tie:
         m = model if model is not None else ask_model({"op": "hv", "pts": case["pts"], "ref": case["ref"], "ap": ap})
         mobs = m.get("v") if m.get("k") == "fin" else m.get("k")
@@ -639,10 +653,19 @@ def stage_hv_special(cx: Ctx, n_cases: int, shrunk: set[str]) -> None:
                 (pts[r.randrange(n)] if r.random() < 0.7 else ref)[i] = float("nan")
             else:
                 pts[r.randrange(n)][i] = ref[i] + 1.0
+        if d >= 2 and r.random() < 0.3:
+            # a degenerate infinite box (repaired F23): a row that touches the reference point in one coordinate and is -inf in another
+            k, (i, j) = r.randrange(n), r.sample(range(d), 2)
+            if all(math.isfinite(x) for x in ref):
+                pts[k][i], pts[k][j] = ref[i], -INF
         sets.append((pts, ref))
+    sets += [([[-INF, 5.0], [1.0, 1.0]], [5.0, 5.0]), ([[-INF, 5.0, 1.0], [1.0, 1.0, 1.0], [2.0, -INF, 5.0]], [5.0, 5.0, 5.0]),
+             ([[3.0, -INF], [3.0, -INF]], [3.0, 4.0])]
     cases, reqs = [], []
     for pts, ref in sets:
         chk.count("hv-special:%s" % true_volume_class(pts, ref))
+        if true_volume_class(pts, ref) == "finite" and any(x == -INF for p in pts for x in p) and all(math.isfinite(x) for x in ref):
+            chk.count("hv-special:degenerate infinite box (touching row with -inf)")
         for ap in (False, True):
             c = {"pts": [[enc(x) for x in p] for p in pts], "ref": [enc(x) for x in ref], "assume_pareto": ap}
             cases.append(c)
